@@ -112,6 +112,11 @@ def mutations(rng, spec):
                     yield 'move-into-dict', set_at(spec, path, ['dict', [[kk, ['dict', vv[1] + [sub[1][1]]]]] + sub[1][2:]])
         elif k == 'nd':
             _, dt, shape, vals = sub
+            if len(shape) >= 2 and len(vals) >= 2:
+                import numpy as _np
+                tv = [int(x) for x in _np.array(vals).reshape(shape).T.flatten()]
+                if tv != vals or list(reversed(shape)) != shape:
+                    yield 'transpose', set_at(spec, path, ['nd', dt, list(reversed(shape)), tv])
             if len(vals) >= 2:
                 yield 'reshape', set_at(spec, path, ['nd', dt, [len(vals)] if len(shape) != 1 else [1, len(vals)], vals])
             if dt in ('i8', '<i4', 'u1', 'i2') and vals:
@@ -138,10 +143,23 @@ def mutations(rng, spec):
             break
 
 
-def ids(drv, enc, spec):
+class Layout:
+    """stands in for the order rng of hashmodel.build: fixed memory layout for every array, insertion order as written"""
+
+    def __init__(self, code):
+        self.code = code
+
+    def shuffle(self, items):
+        pass
+
+    def randint(self, a, b):
+        return self.code
+
+
+def ids(drv, enc, spec, layout=None):
     import jug.task
     from jugverif import hashmodel as hm
-    t = hm.build(spec, None)
+    t = hm.build(spec, None if layout is None else Layout(layout))
     m = hm.to_model(t)
     real = t.hash().decode()
     ans = drv.ask({'op': 'hash', 'enc': enc, 'v': m}) if drv is not None else {}
@@ -200,10 +218,15 @@ def check(run):
     rng = core.rng_for(run.seed, 'c08')
     stats = {}
 
-    def judge(label, s1, s2):
+    def judge(label, s1, s2, layouts=(None, None)):
+        if label == 'transpose' and layouts == (None, None):
+            # the memory layout of an array must not matter: try the layouts under which a transposed array has the same bytes
+            for lay in ((0, 1), (1, 0), (4, 0), (0, 4), (1, 1)):
+                judge(label, s1, s2, lay)
+            return
         try:
-            r1, m1 = ids(drv, enc, s1)
-            r2, m2 = ids(drv, enc, s2)
+            r1, m1 = ids(drv, enc, s1, layouts[0])
+            r2, m2 = ids(drv, enc, s2, layouts[1])
         except Exception as e:
             run.count('build_errors')
             return
@@ -215,7 +238,7 @@ def check(run):
                 run.corr_disagreements += 1
                 run.obligation('correspondence model identifier = real identifier', False, 'model %s/%s real %s/%s for %s' % (m1, m2, r1, r2, json.dumps([s1, s2])[:300]))
         if r1 == r2:
-            rp = {'kind': 'pair', 'a': s1, 'b': s2, 'mutation': label}
+            rp = {'kind': 'pair', 'a': s1, 'b': s2, 'mutation': label, 'layouts': list(layouts)}
             if label == 'lambda-code':
                 run.fail('K2:lambda-co_code', 'lambda tasklets with different bodies share an identifier: %s' % json.dumps([s1, s2])[:300], rp)
             elif m1 is not None and m1 == m2:
@@ -255,6 +278,19 @@ def check(run):
     # the canonical witnesses
     judge('move-into-container', norm(('task', 'f', [('list', [('int', 1)]), ('int', 2)], [])), norm(('task', 'f', [('list', [('int', 1), ('int', 2)])], [])))
     judge('lambda-code', norm(('task', 'f', [('tasklet', ('task', 'g', [], []), ('lambda', 1))], [])), norm(('task', 'f', [('tasklet', ('task', 'g', [], []), ('lambda', 2))], [])))
+    # arrays and their transposes in every memory layout
+    for dt in ('i8', 'f4', '>i4', 'M8[s]', 'u1'):
+        for shape in ([2, 2], [3, 3], [2, 3], [2, 2, 2], [1, 4], [4, 4]):
+            nvals = 1
+            for d in shape:
+                nvals *= d
+            vals = [(7 * i + 3) % 11 for i in range(nvals)]
+            a = ['nd', dt, shape, vals]
+            import numpy as _np
+            tv = [int(x) for x in _np.array(vals).reshape(shape).T.flatten()]
+            b = ['nd', dt, list(reversed(shape)), tv]
+            if a != b:
+                judge('transpose', norm(('task', 'f', [a], [])), norm(('task', 'f', [b], [])))
     # (b) random specs x mutations
     n = 250 if quick else 4000
     for i in range(n):
@@ -289,8 +325,9 @@ def replay(path):
         return 1
     store = dict_store()
     jug.task.Task.store = store
-    a = hm.build(r['a'], None)
-    b = hm.build(r['b'], None)
+    lay = r.get('layouts') or [None, None]
+    a = hm.build(r['a'], None if lay[0] is None else Layout(lay[0]))
+    b = hm.build(r['b'], None if lay[1] is None else Layout(lay[1]))
     print('invocation A:', a, '\ninvocation B:', b)
     print('identifiers:', a.hash(), b.hash())
     same = a.hash() == b.hash()
